@@ -33,6 +33,7 @@ def check_closure_idioms(ctx, extra_roots=()):
                          check_falsy_numeric_default,
                          check_span_contiguity,
                          check_alias_edited_in_place,
+                         check_merge_default_overwrites,
                          check_returns_depend_alike)
     from .h5names import check_h5_names_created_once
     from .scatter import (check_pointer_scatter,
@@ -49,7 +50,8 @@ def check_closure_idioms(ctx, extra_roots=()):
     from .capacity import (check_index_dtype, check_borrowed_dtype,
                            check_sum_capacity, check_bound_kind,
                            check_index_arithmetic_widened,
-                           check_index_cast_to_input_dtype)
+                           check_index_cast_to_input_dtype,
+                           check_capacity_predicates)
     from . import cursors as CU
     from .order import check_pairs_plainly_oriented
     from .roles import check_columns_and_names_selected_together
@@ -80,6 +82,7 @@ def check_closure_idioms(ctx, extra_roots=()):
                      check_falsy_numeric_default,
                      check_span_contiguity,
                      check_alias_edited_in_place,
+                     check_merge_default_overwrites,
                      check_truthy_position, check_jump_in_finally,
                      check_narrowing_cast, check_inplace_float_store,
                      check_h5_names_created_once, check_pointer_scatter,
@@ -94,7 +97,8 @@ def check_closure_idioms(ctx, extra_roots=()):
                      check_columns_and_names_selected_together, check_index_dtype, check_borrowed_dtype,
                      check_sum_capacity, check_bound_kind,
                      check_index_arithmetic_widened,
-                     check_index_cast_to_input_dtype, check_tiling,
+                     check_index_cast_to_input_dtype,
+                     check_capacity_predicates, check_tiling,
                      check_window_writes, check_buffer_windows,
                      check_store_advances, check_batch_search,
                      check_copy_not_filtered_by_content,
